@@ -369,6 +369,10 @@ PROPS["C18"] = {
           role="c18_password", timeout={"quick": 900, "thorough": 2400}, mem_gb=16),
         K("c18_password_keys_match_printed_keys_len2", "same, all 2-character ASCII passwords", T, role="c18_password", timeout={"thorough": 2400}, mem_gb=24),
         K("c18_password_keys_match_printed_keys_empty", "same, empty password", role="c18_password"),
+        K("c18_password_keys_match_printed_keys_len33", "same, 33-character passwords (first two characters symbolic): just above the SHA-256 output length",
+          role="c18_password", timeout={"quick": 900, "thorough": 2400}, mem_gb=16),
+        K("c18_password_keys_match_printed_keys_len32", "same, 32-character passwords", T, role="c18_password", timeout={"thorough": 1200}, mem_gb=16),
+        K("c18_password_keys_match_printed_keys_len40", "same, 40-character passwords (the model's input cap)", T, role="c18_password", timeout={"thorough": 1200}, mem_gb=16),
     ],
 }
 
